@@ -84,3 +84,9 @@ Lemma ex_prog_final_state :
   option_map m_words (final_state VmD ex_prog (compiled ex_prog) 0%Z [[]; []] m0)
   = Some [2; 2; 2; 2; 1; 2; 0]%Z.
 Proof. vm_compute. reflexivity. Qed.
+
+Lemma ex_prog2_streams :
+  option_map fst (ref_run ex_prog2 0 [[1]; [2]; [3]; [4]]%Z st0) = Some [[0; 1]; [1; 5]; [4; 12]; [9; 20]]%Z /\
+  outs_of (mach_run VmD ex_prog2 (compiled ex_prog2) 0 [[1]; [2]; [3]; [4]]%Z m0)
+  = [Some [0; 1]; Some [1; 5]; Some [4; 12]; Some [9; 20]]%Z.
+Proof. vm_compute. auto. Qed.
